@@ -6,6 +6,7 @@ pub mod c06;
 pub mod c07;
 pub mod cfgrammar;
 pub mod c08;
+pub mod c13;
 pub mod c19;
 pub mod common;
 pub mod c20;
@@ -23,6 +24,7 @@ pub fn run(prop: &str, tier: Tier, replay: Option<Value>) -> ! {
         "C06" => c06::run(tier, replay),
         "C07" => c07::run(tier, replay),
         "C08" => c08::run(tier, replay),
+        "C13" => c13::run(tier, replay),
         "C19" => c19::run(tier, replay),
         "C20" => c20::run(tier, replay),
         _ => crate::engine::report::machinery_fail(&format!("unknown property {prop}")),
